@@ -75,7 +75,7 @@ def synthetic_cases(draw):
     n_res = draw(st.sampled_from([0, 1, 2, 2, 3, 3, 4, 5]))
     tnames = draw(st.permutations([f"T{i+1}" for i in range(n_tasks)]))
     p_optional = draw(st.sampled_from([0, 30, 60]))
-    p_zero = draw(st.sampled_from([10, 25, 50]))
+    p_zero = draw(st.sampled_from([0, 15, 40]))
     span = draw(st.sampled_from([3, 6, 9]))
 
     tasks = []
@@ -124,8 +124,10 @@ def synthetic_cases(draw):
                 t["assigned"].append(res["name"])
         resources.append(res)
 
-    max_end = max([t["end"] for t in tasks if t["scheduled"]] + [1])
+    # horizon 0 is what the solver reports for a problem without horizon whose tasks all sit at instant 0 / are unscheduled
+    max_end = max([t["end"] for t in tasks if t["scheduled"]] + [0])
     horizon = max_end + draw(st.sampled_from([0, 0, 1, 3]))
+    problem_horizon = horizon if horizon >= 1 and pct(75) else None
 
     buffers = []
     for b in range(draw(st.sampled_from([0, 0, 0, 1, 1, 2]))):
@@ -146,6 +148,7 @@ def synthetic_cases(draw):
         "origin": "synthetic",
         "name": "P",
         "horizon": horizon,
+        "problem_horizon": problem_horizon,
         "delta_time_s": delta_s,
         "start_time": start_time,
         "tasks": tasks,
@@ -162,7 +165,9 @@ def build_solution(case):
     """Turn the JSON description into a real SchedulingSolution (same construction steps as the solver's report)."""
     from processscheduler.solution import BufferSolution, ResourceSolution, SchedulingSolution, TaskSolution
 
-    pk = {"name": case.get("name", "P"), "horizon": case["horizon"]}
+    pk = {"name": case.get("name", "P")}
+    if case.get("problem_horizon") is not None:
+        pk["horizon"] = case["problem_horizon"]
     if case.get("delta_time_s") is not None:
         pk["delta_time"] = timedelta(seconds=case["delta_time_s"])
     if case.get("start_time") is not None:
@@ -209,6 +214,7 @@ def solution_to_case(sol, origin="solved"):
         "origin": origin,
         "name": p.name,
         "horizon": int(sol.horizon),
+        "problem_horizon": p.horizon if isinstance(p.horizon, int) else None,
         "delta_time_s": None if p.delta_time is None else int(p.delta_time.total_seconds()),
         "start_time": None if p.start_time is None else p.start_time.isoformat(),
         "tasks": [
@@ -231,8 +237,9 @@ def solution_to_case(sol, origin="solved"):
 def inconsistency(sol):
     """None when the solution object is self-consistent as far as the expected drawing is concerned."""
     H = sol.horizon
-    if not isinstance(H, int) or H < 1:
-        return "horizon"
+    if not isinstance(H, int) or H < 0:
+        # seen with solve(): no horizon given and every task unscheduled => reported horizon is a negative instant
+        return "negative_horizon"
     for n, t in sol.tasks.items():
         if n != t.name:
             return "task_key"
@@ -535,6 +542,9 @@ def prop_synthetic(ctx, drawn):
     _verdict(ctx, sol, mode, case)
 
 
+_SOLVED = {}  # (spec, seed, cal) digest -> solution description or skip label
+
+
 def prop_solved(ctx, drawn):
     spec, seed, mode, cal = drawn
     spec = dict(spec)
@@ -543,23 +553,34 @@ def prop_solved(ctx, drawn):
     elif cal == 2:
         spec["delta_time_s"] = 3600
         spec["start_time"] = START_TIMES[seed % len(START_TIMES)]
+    # solve() does not return the same schedule when the same problem is solved twice in one process (z3 state), but
+    # Hypothesis re-executes a failing example and insists on the same outcome: the first answer is kept
+    key = digest([spec, seed])
+    if key in _SOLVED:
+        case = _SOLVED[key]
+        if isinstance(case, str):
+            ctx.event(case)
+            return
+        _verdict(ctx, build_solution(case), mode, case)
+        return
     try:
         h, sol, exc = probe.solve_public(spec, seed)
     except B.BuildRejected as rej:
-        ctx.event(f"solved:build_rejected:{rej.stage}")
+        label = f"solved:build_rejected:{rej.stage}"
+    else:
+        if exc is not None:
+            label = "solved:solve_raised:" + type(exc).__name__  # judged by other properties
+        elif sol is False or sol is None:
+            label = "solved:no_solution"
+        else:
+            why = inconsistency(sol)
+            label = None if why is None else "solved:skipped_inconsistent_solution:" + why
+    if label is not None:
+        _SOLVED[key] = label
+        ctx.event(label)
         return
-    if exc is not None:
-        ctx.event("solved:solve_raised:" + type(exc).__name__)  # judged by other properties
-        return
-    if sol is False or sol is None:
-        ctx.event("solved:no_solution")
-        return
-    why = inconsistency(sol)
-    if why is not None:
-        ctx.event("solved:skipped_inconsistent_solution:" + why)
-        return
-    case = solution_to_case(sol)
-    _verdict(ctx, sol, mode, case)
+    case = _SOLVED[key] = solution_to_case(sol)
+    _verdict(ctx, sol, mode, case)  # the object returned by solve() itself is rendered
 
 
 def run_shard(ctx):
